@@ -12,6 +12,7 @@ LEVEL = 'exploration'
 MODES = ['l', 'lv', 'v', 'vv', 't', 'x', 'e', 'xn', 'xfq0', 'xfq1', 'xfq2', 'xfw=out', 'p', 'pq', 'pn', 'lq', 'vq', 'xfi', 'tq1']
 ALLOWED = set(range(0x20, 0x7f)) | {0x0a, 0x0d, 0x09}
 DATA = b'printable member data\n'
+PERCENT_NAMES = {}
 
 
 def member(level, field, byte, idx, rnd):
@@ -80,6 +81,11 @@ def one(job):
             if c not in ALLOWED:
                 bad.append((stream, i, c, data[max(0, i - 30):i + 10]))
                 break
+    if desc.startswith('percent') and mode in ('l', 'lv', 'v', 'vv', 't'):
+        for nm_ in PERCENT_NAMES.get(A, []):
+            if nm_ not in so_:
+                bad.append(('stdout', -1, 0x25, b'name %s does not appear verbatim' % nm_))
+                break
     shutil.rmtree(d, ignore_errors=True)
     return n, A, mode, rc, bad, len(so_) + len(se), desc, any(e.denied for e in evs)
 
@@ -138,6 +144,18 @@ def run(ctx):
             if fld in ('name', 'path'):
                 ms = ms + ms[:6]
             archives.append(('long-%s byte %02x' % (fld, hb), arc.archive(ms)))
+    # printable text that means something to printf: conversions in names, paths, targets and owner names.  Nothing outside the
+    # allowed set may appear, the tool must not die, and (list modes) the name must come out verbatim.
+    PCT = [b'r%c%c%c%c%c%c%c%c.txt', b'%x%x%x%x%x%x', b'%08d%08d', b'100%%done', b'%', b'%5$c', b'a%hhc%hhc%hhc%hhc', b'%lc%lc%lc', b'%*d', b'%.3000d']
+    for lvl in (0, 1, 2):
+        ms = []
+        for k, nm_ in enumerate(PCT):
+            ms.append(arc.Member(H.simple_member(b'%d_' % k + nm_, DATA, level=lvl), DATA, DATA))
+        ms.append(arc.Member(H.simple_member(b'f', DATA, level=max(lvl, 1), path=b'd%c%c%c/'), DATA, DATA))
+        ms.append(arc.Member(H.symlink_member(b'lnk', b't%c%c%c%c', level=2), b'', b'', kind='symlink'))
+        ms.append(arc.Member(H.simple_member(b'own', DATA, level=2, extra_exts=[(0x53, b'u%c%c'), (0x52, b'g%c%c')]), DATA, DATA))
+        archives.append(('percent L%d' % lvl, arc.archive(ms)))
+        PERCENT_NAMES[archives[-1][1]] = [b'%d_' % k + nm_ for k, nm_ in enumerate(PCT)]
     # single header bytes that end up in the output as characters: the OS-type byte of level 1-3 headers (shown as an OS name in
     # the permission column when the member carries no permissions) over all 256 values, and the level-0 attribute byte
     for lvl in (1, 2, 3):
@@ -159,7 +177,7 @@ def run(ctx):
     jobs = []
     n = 0
     for desc, A in archives:
-        modes = ['l', 'lv', 'v', 'vv', 't', 'xn', 'pq'] if desc.startswith('os-type') else MODES if (ctx.tier == 'thorough' or desc.startswith(('error-path', 'long-'))) else rnd.sample(MODES, 8) + ['v', 'vv']
+        modes = ['l', 'lv', 'v', 'vv', 't', 'xn', 'pq'] if desc.startswith('os-type') else MODES + ['x', 'e'] if desc.startswith('percent') else MODES if (ctx.tier == 'thorough' or desc.startswith(('error-path', 'long-'))) else rnd.sample(MODES, 8) + ['v', 'vv']
         if desc.startswith(('name', 'path', 'long-name', 'long-path')):
             modes = list(modes) + ['x', 'e']
         for mode in sorted(set(modes)):
@@ -178,12 +196,16 @@ def run(ctx):
                 ctx.violation('C18-abnormal-exit:' + mode[0], "'lha %s' on %s ended by signal %d" % (mode, desc, -rc), A)
             for stream, i, c, around in bad:
                 fld = desc.split()[0]
+                if i == -1:
+                    ctx.violation('C18-name-not-verbatim:%s' % mode.split('=')[0], "'lha %s' on the %s archive: %s (printable text with printf conversions in it must be "
+                                  'printed as it is)' % (mode, desc, around.decode('latin1')), A)
+                    continue
                 ctx.violation('C18-raw-byte:%s:%s:%s' % (mode.split('=')[0], fld, stream),
                               "'lha %s' wrote byte 0x%02x at offset %d of %s (archive: %s); context %r" % (mode, c, i, stream, desc, around), A)
     ctx.cov['fields'] = fields
     ctx.cov['byte_values_planted_per_field'] = {f: len([1 for (ff, x) in planted if ff == f]) for f in fields}
     ctx.cov['exhaustive'] = all(v == 255 for v in ctx.cov['byte_values_planted_per_field'].values())
-    ctx.cov['rule'] = ('one archive per (field, level, group of 16 byte values); every byte 0x01..0xFF is planted in every field; all 256 values of the OS-type byte at levels 1-3; strings of 200..1000 bytes with a hostile byte last / first / at 254..256; each archive is '
+    ctx.cov['rule'] = ('one archive per (field, level, group of 16 byte values); every byte 0x01..0xFF is planted in every field; all 256 values of the OS-type byte at levels 1-3; printable names / paths / targets / owner names containing printf conversions (must come out verbatim, the tool must not die); strings of 200..1000 bytes with a hostile byte last / first / at 254..256; each archive is '
                        'run through the listed commands as user nobody under the fs guard; distinct by archive+command; non-trivial = the run produced output')
     ctx.sample({'archive': archives[0][0], 'hex': archives[0][1].hex()[:160], 'modes': MODES})
     shutil.rmtree(base, ignore_errors=True)
